@@ -469,7 +469,18 @@ func (handler *prewrite1BatchReqHandler) handleRegionErr(regionErr *errorpb.Erro
 	if same {
 		return true, nil
 	}
+	// The batch is regrouped.  If this sender has already met an RPC error (the request may have been executed: the
+	// async-commit locks may all be written, the 1PC transaction may be committed) and the regrouped prewrite fails,
+	// the result is undetermined.  drop() cannot tell any more: the nested batch executor sets prewriteCancelled
+	// when its first batch fails (and may have switched 1PC / async commit off), although the RPC error was met
+	// before any cancellation.
+	rpcErr := handler.sender.GetRPCError()
+	mayBeUndetermined := rpcErr != nil && (handler.committer.isAsyncCommit() || handler.committer.isOnePC()) &&
+		atomic.LoadUint32(&handler.committer.prewriteCancelled) == 0
 	err = handler.committer.doActionOnMutations(handler.bo, actionPrewrite{true, handler.action.isInternal, handler.action.hasRpcRetries}, handler.batch.mutations)
+	if err != nil && mayBeUndetermined {
+		handler.committer.setUndeterminedErr(rpcErr)
+	}
 	return false, err
 }
 
